@@ -85,7 +85,7 @@ theorem iterLoop_N (yh : Bool) (pre : List PathEl) (n : Node) (b : Bool) (rest :
   match n with
   | .mk k d pk f h lits tok =>
     have hL := iterLoop_L yh pre lits k d pk f h tok [] b rest (roundsT tok + 1 + extra)
-    simp only [List.nil_append, List.length_nil, Nat.zero_add] at hL
+    simp only [List.nil_append, List.length_nil] at hL
     have hfuel : roundsN (.mk k d pk f h lits tok) + extra = roundsL lits + (roundsT tok + 1 + extra) := by
       simp only [roundsN]; omega
     rw [hfuel, hL, walkN, iterLoop_T yh pre tok k d pk f h lits b rest extra]
